@@ -241,7 +241,20 @@ impl<'a> YamlEmitter<'a> {
                 Ok(())
             }
             Yaml::Value(Scalar::Integer(v)) => Ok(write!(self.writer, "{v}")?),
-            Yaml::Value(Scalar::FloatingPoint(ref v)) => Ok(write!(self.writer, "{v}")?),
+            Yaml::Value(Scalar::FloatingPoint(ref v)) => {
+                let f = v.into_inner();
+                if f.is_nan() {
+                    self.writer.write_str(".nan")?;
+                } else if f.is_infinite() {
+                    self.writer
+                        .write_str(if f > 0.0 { ".inf" } else { "-.inf" })?;
+                } else {
+                    // `Debug` always prints a fractional part or an exponent, so the value is read
+                    // back as a float and not as an integer.
+                    write!(self.writer, "{f:?}")?;
+                }
+                Ok(())
+            }
             Yaml::Value(Scalar::Null) | Yaml::BadValue => Ok(write!(self.writer, "~")?),
             Yaml::Representation(ref v, style, ref tag) => {
                 if let Some(Tag {
